@@ -295,6 +295,19 @@ def run_export(case):
         res["lower_degree"] = lower[-1]
         res["lower_sipmxerr"] = float(h2["SIPMXERR"])
         res["lower_warned"] = any("Failed to achieve" in str(x.message) for x in wl2)
+    # the same question for the inverse polynomials (default search: 1..9): would the next lower degree have met max_inv_pix_error?
+    inv_chosen = hdr.get("AP_ORDER")
+    if inv_chosen is not None and int(inv_chosen) > 1 and case.get("inv_degree") is None and not res["signalled"]:
+        kw3 = dict(kw, degree=chosen, inv_degree=int(inv_chosen) - 1)
+        with warnings.catch_warnings(record=True) as wl3:
+            warnings.simplefilter("always")
+            try:
+                h3 = w.to_fits_sip(**kw3)
+                res["inv_lower_degree"] = int(inv_chosen) - 1
+                res["inv_lower_sipiverr"] = float(h3.get("SIPIVERR", float("nan")))
+                res["inv_lower_warned"] = any("Failed to achieve" in str(x.message) for x in wl3)
+            except Exception as e:
+                res["inv_lower_err"] = type(e).__name__
     # sample points for the Lean evaluation of the header
     res["cd"] = [float(hdr.get("CD%d_%d" % (i, j), hdr.get("PC%d_%d" % (i, j), 1.0 if i == j else 0.0)) * (1.0 if ("CD%d_%d" % (i, j)) in hdr else hdr.get("CDELT%d" % i, 1.0)))
                  for i in (1, 2) for j in (1, 2)]
@@ -381,6 +394,9 @@ def oracle(case, res):
     if "lower_degree" in res and res["lower_sipmxerr"] <= mpe and not res["lower_warned"]:
         out.append(("degree", "A_ORDER=%d chosen although the permitted lower degree %d meets the request (SIPMXERR %.4g <= %g)" %
                     (res["chosen"], res["lower_degree"], res["lower_sipmxerr"], mpe)))
+    if "inv_lower_degree" in res and res["inv_lower_sipiverr"] <= mie and not res["inv_lower_warned"]:
+        out.append(("inv_degree", "AP_ORDER=%d chosen although the lower degree %d meets the request (SIPIVERR %.4g <= %g)" %
+                    (res["inv_lower_degree"] + 1, res["inv_lower_degree"], res["inv_lower_sipiverr"], mie)))
     return out[:5]
 
 
